@@ -250,6 +250,55 @@ func errorPropagated(fn *ssa.Function, after ssa.Instruction, r ssa.Value) (bool
 						if nonNil && sc.Signature.Results().Len() == 1 {
 							return // a wrapping helper of the repository that always builds an error
 						}
+						// a helper that is handed r and passes it on, answering nil only for the stop sentinel
+						// (endOfIter(err): ErrIterDone asks to stop and is not a failure)
+						for ai, a := range y.Call.Args {
+							if !(isR(a) || ir.Origin(a) == ir.Origin(r)) || ai >= len(sc.Params) || hei < 0 {
+								continue
+							}
+							prm := sc.Params[ai]
+							passes := true
+							for _, hr := range ir.Returns(sc) {
+								if hei >= len(hr.Results) {
+									passes = false
+									continue
+								}
+								rv := ir.ResolveCell(hr.Results[hei])
+								if rv == ssa.Value(prm) {
+									continue
+								}
+								if mi, ok := rv.(*ssa.MakeInterface); ok && mi != nil {
+									continue
+								}
+								if zc, ok := rv.(*ssa.Call); ok {
+									if zf := ir.Callee(zc.Call); zf != nil && (zf.String() == "fmt.Errorf" || zf.String() == "errors.New") {
+										continue
+									}
+								}
+								okNil := false
+								if ir.IsNilConst(rv) {
+									okNil = ir.FlowFact(hr, func(f ir.Fact) bool {
+										bin, isBin := f.Cond.(*ssa.BinOp)
+										if !isBin || !((bin.Op == token.EQL && f.Truth) || (bin.Op == token.NEQ && !f.Truth)) {
+											return false
+										}
+										var other ssa.Value
+										if ir.ResolveCell(bin.X) == ssa.Value(prm) {
+											other = bin.Y
+										} else if ir.ResolveCell(bin.Y) == ssa.Value(prm) {
+											other = bin.X
+										}
+										return other != nil && (isSentinel(other) && sentinelMayStopHere(fn, other) || ir.IsNilConst(other))
+									}, func(ssa.Instruction) bool { return false })
+								}
+								if !okNil {
+									passes = false
+								}
+							}
+							if passes {
+								return
+							}
+						}
 					}
 				}
 				if isSentinel(op) {
